@@ -128,7 +128,7 @@ func randResponse(rng *lib.Rand, types []int, maxPerSec int) *dnsMsg {
 
 // at most spinCap predicted endless loops per generator class (each costs its time-out)
 var (
-	spinCap   = 3
+	spinCap   = 10
 	spinCount = map[string]int{}
 )
 
